@@ -16,6 +16,9 @@ pub enum Instr {
     New { asset: u8, bid: bool, vol: u32, trader: u32, price: Option<u32> },
     Cancel { asset: u8, r: Ref },
     Modify { asset: u8, r: Ref, price: Option<u32>, vol: Option<u32> },
+    /// modification stated relative to the order's record at submission: the current price restated (or no
+    /// price), the current volume plus `dvol` (or no volume)
+    ModifyCur { asset: u8, r: Ref, restate_price: bool, dvol: Option<i8> },
 }
 
 #[derive(Clone, Debug, PartialEq, Eq, Hash, Serialize, Deserialize)]
@@ -332,6 +335,9 @@ fn run_inner(case: &EnvCase, orc: EnvOracles, prop: &str, feat: &mut EnvFeatures
         }
         let mut targets_in_batch: Vec<(usize, usize)> = vec![];
         let mut unpinned = 0usize;
+        // exact-volume cases: (asset, side) of the batch's volume-adding order, whose admissible volume took
+        // credit for what it trades against on arrival
+        let mut exact_new: Option<(usize, bool)> = None;
         let pre_step = if orc.invisible || orc.records { Some(env_obs(env.as_ref())) } else { None };
         for ins in instrs.iter() {
             instr_seen += 1;
@@ -362,6 +368,9 @@ fn run_inner(case: &EnvCase, orc: EnvOracles, prop: &str, feat: &mut EnvFeatures
                         budget[a][k] = budget[a][k].saturating_sub(v);
                         v as u32
                     };
+                    if case.exact_vols && !is_drain {
+                        exact_new = Some((a, *bid));
+                    }
                     let on_grid = price.map_or(true, |p| p % case.ticks[a] == 0);
                     let n_before = env.get_orders(a).len();
                     let r = env.place_order(a, *bid, v, *trader, *price);
@@ -408,6 +417,14 @@ fn run_inner(case: &EnvCase, orc: EnvOracles, prop: &str, feat: &mut EnvFeatures
                         feat.skipped_instr += 1;
                         continue;
                     }
+                    // exact-volume cases: a cancel processed before this batch's new order must not remove volume
+                    // the order was assumed to trade against (it would rest in full and could push its side past 2^32)
+                    if let Some((na, nbid)) = exact_new {
+                        if na == a && orders[id].bid != nbid {
+                            feat.skipped_instr += 1;
+                            continue;
+                        }
+                    }
                     unpinned += 1;
                     env.cancel_order((a, id));
                     if let Some((t, _)) = twin.as_mut() {
@@ -422,13 +439,27 @@ fn run_inner(case: &EnvCase, orc: EnvOracles, prop: &str, feat: &mut EnvFeatures
                     targets_in_batch.push((a, id));
                     batch.instrs.push(PInstr { asset: a, ev: Ev::Cancel(id), is_new: false });
                 }
-                Instr::Modify { asset, r, price, vol } => {
+                Instr::Modify { .. } | Instr::ModifyCur { .. } => {
+                    let (asset, r) = match ins {
+                        Instr::Modify { asset, r, .. } | Instr::ModifyCur { asset, r, .. } => (asset, r),
+                        _ => unreachable!(),
+                    };
                     let a = (*asset as usize) % n;
                     let orders = env.get_orders(a);
                     let Some(id) = resolve(&orders, *r) else {
                         feat.skipped_instr += 1;
                         continue;
                     };
+                    let (price, vol): (Option<u32>, Option<u32>) = match ins {
+                        Instr::Modify { price, vol, .. } => (*price, *vol),
+                        Instr::ModifyCur { restate_price, dvol, .. } => {
+                            let o = &orders[id];
+                            let is_limit = o.price != 0 && o.price != u32::MAX;
+                            (if *restate_price && is_limit { Some(o.price) } else { None }, dvol.map(|d| (o.vol as i64 + d as i64).clamp(1, u32::MAX as i64) as u32))
+                        }
+                        _ => unreachable!(),
+                    };
+                    let (price, vol) = (&price, &vol);
                     if unpinned >= MAX_UNPINNED && orc.schedule {
                         feat.skipped_instr += 1;
                         continue;
